@@ -263,7 +263,10 @@ def worker(args):
         if r < 0.9:
             asked.append(s)
         if it % 1999 == 0 and x is not None:
-            rec.sample({"sid": s, "paths": {c: (pms[c].rel(x.path(c)) if x.path(c) else None) for c in configs}})
+            try:
+                rec.sample({"sid": s, "paths": {c: (pms[c].rel(x.path(c)) if x.path(c) else None) for c in configs}})
+            except Exception:
+                pass        # (a sample is documentation; a raising path() is judged above)
     res = rec.result()
     res["pathmap"] = pathmap
     return res
